@@ -29,3 +29,19 @@ func (t *LiqTracker) debug(w *World) {
 		}
 	}
 }
+
+func debugC16(h *c16Harness) {
+	if os.Getenv("VERIF_DEBUG_C16") == "" {
+		return
+	}
+	for i := range h.w0.Digests {
+		a, b, c := h.w0.Digests[i], "", ""
+		if i < len(h.w1.Digests) {
+			b = h.w1.Digests[i]
+		}
+		if i < len(h.w2.Digests) {
+			c = h.w2.Digests[i]
+		}
+		fmt.Printf("%d\n  w0 %s\n  w1 %s\n  w2 %s\n", i, a, b, c)
+	}
+}
